@@ -147,7 +147,7 @@ package consul
 //@   props C14
 //@   requires buildReady()
 //@   // builds a scratch table of its own: the writes are to the scratch buffers and to route objects it allocates
-//@   assigns bufOf, builtFrom, mapsOf(map[string]route.Routes), elems(*route.Route), route.Route.Targets, route.Route.wTargets, elems(*route.Target), route.Target.Weight, route.Target.FixedWeight, route.Target.accessRules, elems(interface{}), mapsOf(map[string][]interface{}), ioWrites, lastWrite
+//@   assigns bufOf, scanFailed, builtFrom, mapsOf(map[string]route.Routes), elems(*route.Route), route.Route.Targets, route.Route.wTargets, elems(*route.Target), route.Target.Weight, route.Target.FixedWeight, route.Target.accessRules, elems(interface{}), mapsOf(map[string][]interface{}), ioWrites, lastWrite
 //@   ensures nopanic
 //@   // accepted means: fabio's parser takes it, it is exactly ONE 'route add' definition, and a table can be built from it
 //@   ensures result == nil ==> accepts(cmd) && singleAdd(cmd) && tableAccepts(cmd)
@@ -183,7 +183,7 @@ package consul
 //@ func (routecmd).build
 //@   props C14
 //@   requires r.svc != nil && buildReady()
-//@   assigns bufOf, builtFrom, mapsOf(map[string]route.Routes), elems(*route.Route), route.Route.Targets, route.Route.wTargets, elems(*route.Target), route.Target.Weight, route.Target.FixedWeight, route.Target.accessRules, elems(interface{}), mapsOf(map[string][]interface{}), ioWrites, lastWrite
+//@   assigns bufOf, scanFailed, builtFrom, mapsOf(map[string]route.Routes), elems(*route.Route), route.Route.Targets, route.Route.wTargets, elems(*route.Target), route.Target.Weight, route.Target.FixedWeight, route.Target.accessRules, elems(interface{}), mapsOf(map[string][]interface{}), ioWrites, lastWrite
 //@   ensures nopanic
 //@   // validate-before-emit: whatever the registration contains, only commands the parser accepts are emitted
 //@   ensures forall i int :: 0 <= i && i < len(result) ==> accepts(result[i]) && singleAdd(result[i]) && tableAccepts(result[i])
@@ -203,7 +203,7 @@ package consul
 //@ func (*ServiceMonitor).serviceConfig
 //@   props C01 C14
 //@   requires w != nil && w.client != nil && w.config != nil && buildReady()
-//@   assigns bufOf, builtFrom, mapsOf(map[string]route.Routes), elems(*route.Route), route.Route.Targets, route.Route.wTargets, elems(*route.Target), route.Target.Weight, route.Target.FixedWeight, route.Target.accessRules, elems(interface{}), mapsOf(map[string][]interface{}), ioWrites, lastWrite
+//@   assigns bufOf, scanFailed, builtFrom, mapsOf(map[string]route.Routes), elems(*route.Route), route.Route.Targets, route.Route.wTargets, elems(*route.Target), route.Target.Weight, route.Target.FixedWeight, route.Target.accessRules, elems(interface{}), mapsOf(map[string][]interface{}), ioWrites, lastWrite
 //@   ensures nopanic
 //@   // the commands of one service are the concatenation of what build emitted for its passing instances
 //@   ensures forall i int :: 0 <= i && i < len(config) ==> accepts(config[i]) && singleAdd(config[i]) && tableAccepts(config[i])
